@@ -94,6 +94,28 @@ def handleBvh (ws : List String) : Option String := do
   let (t, _) ← parseBin ws
   some s!"perm={boolStr (isPermOfRange n t.leaves)} n={t.leaves.length}"
 
+def showShape : Shape Nat → String
+  | .leaf i => s!"L {i}"
+  | .node a b => s!"N {showShape a} {showShape b}"
+
+/-- `bvhx <dim> <n> <dim*n ids> <n*2*dim rats>` → the exact tree of `NewBVHAreaDensity` (faithful `newBVH` with the
+real oracle `bvhSplit`: `areaDensityBVHSplit` on every axis + the axis choice), as `L i` | `N <a> <b>`. -/
+def handleBvhx (ws : List String) : Option String := do
+  let (dim, ws) ← takeNat ws
+  let (n, ws) ← takeNat ws
+  let (ids, ws) ← takeNats (dim * n) ws
+  let (xs, _) ← takeRats (n * 2 * dim) ws
+  let sorted := chunks n dim ids
+  let cnt : Nat → Q := fun k => (k : Q)
+  let t :=
+    if dim = 3 then
+      let boxOf : Nat → Box3 Q := fun i => ⟨v3 xs (6 * i), v3 xs (6 * i + 3)⟩
+      newBVH (bvhSplit Box3.union boundsArea3 cnt boxOf) (n + 1) sorted
+    else
+      let boxOf : Nat → Box2 Q := fun i => ⟨v2 xs (4 * i), v2 xs (4 * i + 2)⟩
+      newBVH (bvhSplit Box2.union boundsArea2 cnt boxOf) (n + 1) sorted
+  some (match t with | none => "none" | some t => showShape t)
+
 /-! ### joined colliders / objects -/
 
 /-- forest shapes: `L i` | `J k <k shapes>` | `H m i1 … im` -/
@@ -241,12 +263,18 @@ def handleJ3 (flatten : Bool) (ws : List String) : Option String := do
   let (a, ws) ← takeRats (nargs3 q) ws
   let (n, ws) ← takeNat ws
   let (ls, ws) ← parseLeaves 3 q n ws []
+  -- A leaf is a FUNCTION of the query it is asked: the canned answer of the line belongs to the line's query
+  -- `a`; asked anything else (a clipped box, a shortened segment, a moved ray, …) the leaf reports nothing.
+  -- The synthetic leaves of the harness behave exactly like this.
   let leaf : Nat → Leaf3 Q := fun i =>
     let (bx, an) := ls.getD i ([], .flag false)
     { id := i, box := ⟨v3 bx 0, v3 bx 3⟩,
-      ray := fun _ _ => ansHits i an, first := fun _ _ => ansOpt i an,
-      sphere := fun _ _ => ansFlag an, seg := fun _ _ => ansFlag an, rect := fun _ => ansFlag an,
-      tri := fun _ _ _ => ansIds an }
+      ray := fun o d => if o = v3 a 0 ∧ d = v3 a 3 then ansHits i an else [],
+      first := fun o d => if o = v3 a 0 ∧ d = v3 a 3 then ansOpt i an else none,
+      sphere := fun c r => if c = v3 a 0 ∧ r = a.getD 3 0 then ansFlag an else false,
+      seg := fun p p2 => if p = v3 a 0 ∧ p2 = v3 a 3 then ansFlag an else false,
+      rect := fun r => if r = (⟨v3 a 0, v3 a 3⟩ : Box3 Q) then ansFlag an else false,
+      tri := fun t1 t2 t3 => if t1 = v3 a 0 ∧ t2 = v3 a 3 ∧ t3 = v3 a 6 then ansIds an else [] }
   let f ← hier3 flatten leaf ws
   let items := f.items
   let fin := finish (tr != 0) (snd != 0)
@@ -299,11 +327,15 @@ def handleJ2 (ws : List String) : Option String := do
   let (a, ws) ← takeRats (nargs2 q) ws
   let (n, ws) ← takeNat ws
   let (ls, ws) ← parseLeaves 2 q n ws []
+  -- leaves are functions of the query they are asked (see `handleJ3`)
   let leaf : Nat → Leaf2 Q := fun i =>
     let (bx, an) := ls.getD i ([], .flag false)
     { id := i, box := ⟨v2 bx 0, v2 bx 2⟩,
-      ray := fun _ _ => ansHits i an, first := fun _ _ => ansOpt i an,
-      sphere := fun _ _ => ansFlag an, seg := fun _ _ => ansFlag an, rect := fun _ => ansFlag an }
+      ray := fun o d => if o = v2 a 0 ∧ d = v2 a 2 then ansHits i an else [],
+      first := fun o d => if o = v2 a 0 ∧ d = v2 a 2 then ansOpt i an else none,
+      sphere := fun c r => if c = v2 a 0 ∧ r = a.getD 2 0 then ansFlag an else false,
+      seg := fun p p2 => if p = v2 a 0 ∧ p2 = v2 a 2 then ansFlag an else false,
+      rect := fun r => if r = (⟨v2 a 0, v2 a 2⟩ : Box2 Q) then ansFlag an else false }
   let f ← hier2 leaf ws
   let items := f.items
   let fin := finish (tr != 0) (snd != 0)
@@ -486,6 +518,7 @@ def handleAll (ws : List String) : Option String :=
   | "pbd2" :: r => handlePbd 2 r
   | "group" :: r => handleGroup r
   | "bvh" :: r => handleBvh r
+  | "bvhx" :: r => handleBvhx r
   | "j3" :: r => handleJ3 true r
   | "o3" :: r => handleJ3 false r
   | "j2" :: r => handleJ2 r
